@@ -23,3 +23,7 @@ for cd in cli.load_contracts(pid):
             for o in r.obligations:
                 if o.status != "proved" and o.kind != "canary" and o.label not in seen:
                     seen.add(o.label); print("NOTE", o.label, "|", o.note[:300], "|", o.model)
+        if os.environ.get("DBG_UNK"):
+            for o in r.obligations:
+                if o.status == "unknown":
+                    print("UNK", o.label, o.path, "|", o.note[:200], o.time_s)
